@@ -634,6 +634,20 @@ class K{base}:
         return self.x
 OPS = [("new", (3,), {{}}), ("call", "get"), ("copy",), ("deepcopy",), ("pickle",), ("call", "get")]
 ''',
+    "keyword-named-self-collected-by-var-keyword": '''
+{deco}
+class K{base}:
+    """``self=...`` is an ordinary keyword here: the instance parameter is positional-only, or has another name."""
+    def __init__(self):
+        self.tags = {{}}
+    def update(self, /, **kwargs):
+        self.tags.update(kwargs)
+        return sorted(self.tags.items())
+    def put(this, **kwargs):
+        this.tags.update(kwargs)
+        return sorted(this.tags.items())
+OPS = [("new", (), {{}}), ("callkw", "update", {{"self": 1, "b": 2}}), ("callkw", "put", {{"self": 3}}), ("callkw", "update", {{"a": 0}})]
+''',
     "singleton-new": '''
 {deco}
 class K{base}:
@@ -809,6 +823,8 @@ def run_ops(mod, ops) -> List[Any]:
                 import pickle as _pickle  # pylint: disable=import-outside-toplevel
                 made = {"copy": _copy.copy, "deepcopy": _copy.deepcopy, "pickle": lambda obj: _pickle.loads(_pickle.dumps(obj))}[op[0]](inst)
                 res = ("instance", type(made).__name__, made is not inst, sorted(getattr(made, "__dict__", {}).items(), key=str))
+            elif op[0] == "callkw":
+                res = getattr(inst, op[1])(**op[2])
             elif op[0] == "inew":
                 # __new__ reached through an instance (it is a static method: no argument is bound)
                 made = inst.__new__(type(inst), *op[1:])
